@@ -152,6 +152,18 @@ func TestVerifConfMetrics(t *testing.T) {
 			report("metrics-relabel-keeps-groups", "metric.(*ConstGaugeCollector).UpdateLabels", fmt.Sprintf("%s: group g1 replaced after the label set grew: got %v want %v", kind, got, want))
 		}
 	}
+	// a group that reports other metric names than before: the old names disappear
+	{
+		evaluated++
+		m := newStorage()
+		m.SendBatch(batch(`{"group":"g1","name":"old_name","action":"set","value":1,"labels":{"a":"1"}}`+"\n"+`{"group":"g2","name":"old_name","action":"set","value":2,"labels":{"a":"2"}}`), lbl)
+		m.SendBatch(batch(`{"group":"g1","name":"new_name","action":"set","value":3,"labels":{"a":"1"}}`), lbl)
+		got := vcGather(t, m)
+		want := map[string]float64{"old_name{a=2,hook=h}": 2, "new_name{a=1,hook=h}": 3}
+		if fmt.Sprint(got) != fmt.Sprint(want) {
+			report("metrics-group-replace-other-names", "metric_storage.(*MetricStorage).applyGroupOperations", fmt.Sprintf("group g1 reported old_name, then only new_name: got %v want %v", got, want))
+		}
+	}
 	// label tuples that concatenate to the same bytes are different series
 	{
 		evaluated++
